@@ -40,6 +40,9 @@ ELEM_METHODS = {'items', 'values', 'get', 'pop', 'popitem', 'setdefault', '__get
 KEY_METHODS = {'keys'}
 SHALLOW_COPY_FUNCS = {'copy', 'dict', 'list', 'tuple', 'set', 'sorted', 'reversed', 'frozenset'}
 DEEP_FRESH_FUNCS = {'deepcopy'}
+# attributes of the value classes that hold descriptor dictionaries: a subscript on them is a key look-up whatever the index
+DICT_FIELDS = {'descriptors', 'rdm_descriptors', 'pattern_descriptors', 'obs_descriptors', 'channel_descriptors',
+               'time_descriptors'}
 FANCY_PRODUCERS = {'where', 'nonzero', 'argsort', 'flatnonzero', 'array', 'arange', 'unique', 'concatenate', 'sort',
                    'num_index', 'bool_index', 'isin', 'in1d', 'logical_and', 'logical_or', 'logical_not', 'isnan',
                    'isfinite', 'triu_indices', 'tril_indices', 'ix_', 'argwhere', 'asarray', 'ones', 'zeros', 'triu',
@@ -327,6 +330,10 @@ class HeapWalker(FuncWalker):
             kinds = set()
             for d in st.defs.get(idx.id, ()):
                 dr = self.defrecs[d]
+                if dr.kind == 'param':
+                    dv = self.f.default_of(idx.id)
+                    kinds.add('key' if isinstance(dv, ast.Constant) and isinstance(dv.value, str) else 'unknown')
+                    continue
                 if dr.kind == 'for' and isinstance(dr.node, ast.For):
                     kinds.add(self._loop_var_kind(dr.node, idx.id, st))
                 elif dr.kind in ('assign',) and isinstance(dr.node, ast.Assign) and isinstance(dr.node.targets[0], ast.Name):
@@ -412,12 +419,16 @@ class HeapWalker(FuncWalker):
                         out.add(add_field(l, e.attr))
                 elif is_param_loc(l):
                     out.add(add_field(l, e.attr))
+                elif (l, '<shallow>') in st.heap:
+                    out |= self._field_of(l, e.attr, st)
             return frozenset(out)
         if isinstance(e, ast.Subscript):
             base = self.pt(e.value, st)
             if not base:
                 return NO
             k = self.idx_kind(e.slice, st)
+            if isinstance(e.value, ast.Attribute) and e.value.attr in DICT_FIELDS:
+                k = 'key'
             if k == 'basic':
                 return base | frozenset(add_elem(l) for l in base)
             if k == 'key':
@@ -636,7 +647,24 @@ class HeapWalker(FuncWalker):
                 m[p] = m.get(p, NO) | star
         return m
 
-    def _subst(self, locs, amap: Dict[str, Locs], fresh_site: str, callee_vararg=None) -> Locs:
+    def _field_of(self, a: str, fld: str, st: _State, depth=0) -> Locs:
+        """locations stored in field `fld` of location a, resolved through the current heap (fresh objects whose fields were
+        set from caller-visible objects, shallow copies)"""
+        key = (a, fld)
+        out: Set[str] = set()
+        if key in st.heap:
+            out |= st.heap[key]
+            if is_param_loc(a):
+                out.add(add_field(a, fld))
+            return frozenset(out)
+        sh = st.heap.get((a, '<shallow>'))
+        if sh and depth < 3 and fld != '*':
+            for o in sh:
+                out |= self._field_of(o, fld, st, depth + 1)
+            return frozenset(out)
+        return frozenset({add_field(a, fld)})
+
+    def _subst(self, locs, amap: Dict[str, Locs], fresh_site: str, callee_vararg=None, st: Optional[_State] = None) -> Locs:
         out = set()
         for l in locs:
             if l == FRESH:
@@ -648,7 +676,12 @@ class HeapWalker(FuncWalker):
                 suffix = l[2 + len(p):]
                 for a in amap.get(p, NO):
                     if suffix:
-                        if a.startswith('A:'):
+                        comps = [c for c in suffix.split('.') if c]
+                        if st is not None and a.startswith('A:') and '|' not in a and comps and comps[0] != '*':
+                            # field of a locally known object: follow the heap instead of inventing an access path
+                            for t in self._field_of(a, comps[0], st):
+                                out.add(t if len(comps) == 1 else add_elem(t))
+                        elif a.startswith('A:'):
                             out.add(norm_loc(a + ('.' if '|' in a else '|') + suffix.lstrip('.')))
                         else:
                             out.add(norm_loc(a + suffix))
@@ -686,11 +719,11 @@ class HeapWalker(FuncWalker):
                 self.alloc_class[site] = r[6:]
         # effects: stores into parameter-reachable objects
         for (l, fld), val in summ.stores.items():
-            targets = self._subst([l], amap, site)
+            targets = self._subst([l], amap, site, st=None if is_ctor else st)
             v = self._subst(val, amap, site)
             self.store_field(st, targets, fld, v, strong=is_ctor and len(targets) == 1)
         for (l, kind, key) in summ.writes:
-            targets = self._subst([l], amap, site)
+            targets = self._subst([l], amap, site, st=None if is_ctor else st)
             if is_ctor:
                 targets = frozenset(t for t in targets if t != site and not t.startswith(site + '|'))
             self.write(targets, kind, key, e, origin=summ.write_sites.get((l, kind, key)))
@@ -760,6 +793,9 @@ class HeapWalker(FuncWalker):
                 inner = self.elems(arg0, st)
                 if inner:
                     st.heap[(site, '*')] = st.heap.get((site, '*'), NO) | inner
+                if nm == 'copy' and arg0:
+                    # copy.copy(obj): a new object whose attributes are the SAME objects as the original's
+                    st.heap[(site, '<shallow>')] = st.heap.get((site, '<shallow>'), NO) | arg0
                 return frozenset({site})
             if nm in ('enumerate', 'zip', 'iter', 'filter', 'map'):
                 res = set()
